@@ -22,6 +22,8 @@ import (
 	"runtime"
 	"runtime/debug"
 	"strings"
+	"sync"
+	"sync/atomic"
 	"time"
 
 	"github.com/ctessum/geom"
@@ -617,6 +619,108 @@ func gen(seed uint64, tier string) {
 			emit("dbo", t*norms[k], geom.LineString(toPath(apply(ps, k, int64(r.Range(-50, 50)), int64(r.Range(-50, 50))))))
 		}
 	}
+	// shallow pocket at small ABSOLUTE scales (seeded C13-e1: an absolute threshold in findIntersection's
+	// parallel test treats a shallow crossing of short segments as "parallel, different lines" = no
+	// intersection).  A–B–C is a low bump that the chord A–C may replace; the line then runs round and
+	// re-enters the pocket under the bump through the chord at a shallow angle, F (near A, off the chord's
+	// line) → G (inside the pocket, where the line ends: an odd number of crossings).  The unchanged code
+	// sees the crossing and keeps B.  Every shape is emitted on a ladder of scales — dyadic 2^-8..2^-40
+	// (exact), decimal 1e-3..1e-7 — without and with a large offset (lon/lat -93.265, 44.977), so that an
+	// absolute threshold anywhere in a wide range has shapes inside its window.
+	{
+		mats := [][4]int64{{1, 0, 0, 1}, {0, -1, 1, 0}, {-1, 0, 0, -1}, {3, -4, 4, 3}, {1, 0, 0, -1}, {0, 1, 1, 0}, {-3, 4, 4, 3}}
+		norms := []float64{1, 1, 1, 5, 1, 1, 5}
+		emitLadder := func(ps []ip, tol float64) {
+			base := toPath(ps)
+			shift := func(pts []geom.Point, ox, oy float64) []geom.Point {
+				q := make([]geom.Point, len(pts))
+				for i, p := range pts {
+					q[i] = geom.Point{X: p.X + ox, Y: p.Y + oy}
+				}
+				return q
+			}
+			for k := 8; k <= 40; k++ {
+				f := math.Ldexp(1, -k)
+				emit("pocket@dy", tol*f, geom.LineString(scalePts(base, f)))
+				if k <= 26 && k%2 == 0 {
+					emit("pocket@dyoff", tol*f, geom.LineString(shift(scalePts(base, f), -93.265, 44.977)))
+				}
+			}
+			for _, f := range []float64{1e-3, 3e-4, 1e-4, 3e-5, 1e-5, 2e-6, 1e-6, 3e-7, 1e-7} {
+				emit("pocket@dec", tol*f, geom.LineString(scalePts(base, f)))
+				emit("pocket@decoff", tol*f, geom.LineString(shift(scalePts(base, f), -93.265, 44.977)))
+			}
+		}
+		// the seeded witness (unit 1e-5 there; here x5 on the integer grid)
+		emitLadder([]ip{{0, 0}, {400, 40}, {500, 0}, {550, -100}, {0, -100}, {25, -6}, {475, 4}}, 50)
+		npk := 10
+		if tier == "thorough" {
+			npk = 150
+		}
+		for c := 0; c < npk; c++ {
+			lc := int64(r.Range(300, 800))
+			bx := lc * int64(r.Range(55, 90)) / 100
+			h := int64(r.Range(12, 44))
+			d := ip{lc + int64(r.Range(20, 80)), -int64(r.Range(60, 140))}
+			e := ip{int64(r.Range(-40, 10)), -int64(r.Range(60, 140))}
+			f := ip{int64(r.Range(10, 40)), -int64(r.Range(2, 12))}
+			gx := lc * int64(r.Range(80, 96)) / 100
+			roof := h * (lc - gx) / (lc - bx)
+			if gx <= bx {
+				roof = h * gx / bx
+			}
+			if roof < 2 {
+				roof = 2
+			}
+			g := ip{gx, 1 + int64(r.Intn(int(roof*6/10)+1))}
+			ps := []ip{{0, 0}, {bx, h}, {lc, 0}, d, e, f, g}
+			if r.Chance(0.3) { // a lead-in before A
+				ps = append([]ip{{-int64(r.Range(30, 90)), int64(r.Range(20, 90))}}, ps...)
+			}
+			k := r.Intn(len(mats))
+			m := mats[k]
+			tx, ty := int64(r.Range(-50, 50)), int64(r.Range(-50, 50))
+			q := make([]ip, len(ps))
+			for i, v := range ps {
+				q[i] = ip{m[0]*v.x + m[1]*v.y + tx, m[2]*v.x + m[3]*v.y + ty}
+			}
+			emitLadder(q, 50*norms[k])
+		}
+	}
+	// concurrent callers (class prefix conc): multi-geometries with 32..80 members, long lines and rings, so
+	// that the 8 identical calls and the 8 unrelated ones overlap (see concurrentCallers)
+	{
+		ncc := 60
+		if tier == "thorough" {
+			ncc = 300
+		}
+		for c := 0; c < ncc; c++ {
+			tol := []float64{0.5, 1.5, 3.5, float64(r.Range(2, 16))}[r.Intn(4)]
+			switch c % 4 {
+			case 0:
+				ml := make(geom.MultiLineString, r.Range(32, 80))
+				for i := range ml {
+					_, ps := lineOf(r, false)
+					ml[i] = toPath(ps)
+				}
+				emit("conc", tol, ml)
+			case 1:
+				mp := make(geom.MultiPolygon, r.Range(32, 48))
+				for i := range mp {
+					mp[i] = polygon(r, false)
+				}
+				emit("conc", tol, mp)
+			case 2:
+				emit("conc", tol, geom.LineString(toPath(randomWalk(r, r.Range(150, 600)))))
+			default:
+				pg := geom.Polygon{toPath(starRing(r, 0, 0, float64(r.Range(200, 2000)), r.Range(100, 400)))}
+				for h := r.Intn(5); h > 0; h-- {
+					pg = append(pg, toPath(starRing(r, int64(r.Range(-60, 60)), int64(r.Range(-60, 60)), float64(r.Range(5, 30)), r.Range(3, 20))))
+				}
+				emit("conc", tol, pg)
+			}
+		}
+	}
 	// vertex and member counts around 64 / 128 (/ 1024 / 2048 in the thorough tier), one level at a time
 	{
 		sizes := []int{63, 64, 65, 66, 127, 128, 129, 130}
@@ -660,6 +764,37 @@ func gen(seed uint64, tier string) {
 		ps2, tol2 := smoothParabola(r, 260)
 		emit("smooth", tol2, geom.MultiLineString{toPath(ps2), P(0, 0, 5, 5), toPath(ps2[:90])})
 	}
+	// ---- densified simple lines: a simple line in general position whose segments are cut into 2..5
+	// collinear pieces (coordinates scaled by the number of pieces: exact).  Not in general position, but
+	// every collinear triple is in order along its line (Spec.ColOrdered; theorem
+	// C13_simple_collinear_ordered), so the answer must be simple; chords that start or end inside a
+	// straight run are tested against the rest of the same run (collinear branch of findIntersection).
+	nd := 150
+	if tier == "thorough" {
+		nd = 2500
+	}
+	for c := 0; c < nd; c++ {
+		base := gpLine(r, r.Range(3, 12))
+		k := int64(r.Range(2, 5))
+		ps := []ip{}
+		for i := 0; i+1 < len(base); i++ {
+			for t := int64(0); t < k; t++ {
+				ps = append(ps, ip{(k-t)*base[i].x + t*base[i+1].x, (k-t)*base[i].y + t*base[i+1].y})
+			}
+		}
+		if len(base) > 0 {
+			ps = append(ps, ip{k * base[len(base)-1].x, k * base[len(base)-1].y})
+		}
+		tol := float64(k) * []float64{0, 0.5, 1.5, 3.5, float64(r.Range(2, 16)), float64(r.Range(2, 16))}[r.Intn(6)]
+		pts := toPath(ps)
+		if r.Chance(0.15) { // below unit length the collinear branch reports disjoint pieces as meeting
+			pts = scalePts(pts, 1.0/1024)
+			tol /= 1024
+			emit("dense@scaled", tol, geom.LineString(pts))
+		} else {
+			emit("dense", tol, geom.LineString(pts))
+		}
+	}
 	for c := 0; c < n; c++ {
 		tol := pickTol(r)
 		switch k := r.Intn(20); {
@@ -700,6 +835,22 @@ func gen(seed uint64, tier string) {
 			mp := make(geom.MultiPolygon, m)
 			for i := range mp {
 				mp[i] = polygon(r, false)
+			}
+			if r.Chance(0.3) {
+				// members that are single rings made of a closed generated line, tolerance comparable to the
+				// ring: the ring is its own obstacle (a chord is checked against replaced original segments
+				// of the same ring), so an answer computed without it differs (self-mutation X7)
+				tol = float64(r.Range(2, 16))
+				for i := range mp {
+					_, ps := lineOf(r, false)
+					if len(ps) > 60 {
+						ps = ps[:60]
+					}
+					if len(ps) > 0 {
+						ps = append(ps, ps[0])
+					}
+					mp[i] = geom.Polygon{toPath(ps)}
+				}
 			}
 			emit("mpg", tol, mp)
 		}
@@ -905,7 +1056,105 @@ func sameBits(a, b []geom.Point) bool {
 //	members         every member simplified on its own (fresh copies)
 //	again           the identical call repeated after the operand was changed IN PLACE (x and y of
 //	                every vertex swapped: same addresses, same lengths); judged against the swapped input
-func simplifyOne(g0 geom.Geom, tol float64) string {
+// ---- concurrent callers (generic probe (g)): the four Simplify methods are pure functions of receiver
+// and tolerance.  For a line of class `conc-…` the reference answer is computed alone; then 8 goroutines
+// repeat the call on private deep copies while 8 others hammer the same API on unrelated large inputs
+// (long lines, many members) so that calls overlap.  The first answer that is not bit-identical to the
+// reference replaces the answer of the line (the Spec and the model then judge it); a panic in one of
+// our goroutines is reported as `panic`, a modified private copy as `mutated`.  A panic in a goroutine
+// the LIBRARY spawned cannot be recovered here: it kills the worker and the supervisor reports the line
+// as `crash`.
+var hammerOnce sync.Once
+var hammerInputs []geom.Geom
+
+func hammerSet() []geom.Geom {
+	hammerOnce.Do(func() {
+		r := vproto.NewRng(424242)
+		hammerInputs = append(hammerInputs, geom.LineString(toPath(randomWalk(r, 2500))))
+		ml := make(geom.MultiLineString, 64)
+		for i := range ml {
+			ml[i] = toPath(randomWalk(r, 40))
+		}
+		hammerInputs = append(hammerInputs, ml)
+		pg := geom.Polygon{toPath(starRing(r, 0, 0, 4000, 600))}
+		for h := 0; h < 6; h++ {
+			pg = append(pg, toPath(starRing(r, int64(200*h-500), int64(100*h-300), 60, 24)))
+		}
+		hammerInputs = append(hammerInputs, pg)
+		mp := make(geom.MultiPolygon, 40)
+		for i := range mp {
+			mp[i] = geom.Polygon{toPath(starRing(r, int64(300*i), 0, 100, 50))}
+		}
+		hammerInputs = append(hammerInputs, mp)
+	})
+	return hammerInputs
+}
+
+// concurrentCallers returns ("", "", false) when every concurrent answer equals ref
+func concurrentCallers(g geom.Geom, tol float64, ref string) (dev string, panicMsg string, mutated bool) {
+	const callers, hammers, rounds = 8, 8, 6
+	var mu sync.Mutex
+	var stop int32
+	var wgC, wgH sync.WaitGroup
+	note := func(d, p string, m bool) {
+		mu.Lock()
+		if dev == "" && d != "" {
+			dev = d
+		}
+		if panicMsg == "" && p != "" {
+			panicMsg = p
+		}
+		mutated = mutated || m
+		mu.Unlock()
+	}
+	hs := hammerSet()
+	for h := 0; h < hammers; h++ {
+		wgH.Add(1)
+		go func(h int) {
+			defer wgH.Done()
+			defer func() {
+				if e := recover(); e != nil {
+					note("", fmt.Sprintf("in-concurrent-unrelated-call %v", e), false)
+				}
+			}()
+			in := cloneGeom(hs[h%len(hs)]).(geom.Simplifier)
+			for k := 0; atomic.LoadInt32(&stop) == 0; k++ {
+				in.Simplify([]float64{1.5, 3.5, 20, 0.5}[(h+k)%4])
+			}
+		}(h)
+	}
+	start := make(chan struct{})
+	for c := 0; c < callers; c++ {
+		wgC.Add(1)
+		go func() {
+			defer wgC.Done()
+			defer func() {
+				if e := recover(); e != nil {
+					note("", fmt.Sprintf("in-concurrent-call %v", e), false)
+				}
+			}()
+			priv, buf := flatten(cloneGeom(g))
+			saved := append([]geom.Point(nil), buf...)
+			<-start
+			for k := 0; k < rounds; k++ {
+				t := vproto.GeomToks(priv.(geom.Simplifier).Simplify(tol))
+				if t != ref {
+					note(t, "", false)
+				}
+			}
+			if !sameBits(buf, saved) {
+				note("", "", true)
+			}
+		}()
+	}
+	close(start)
+	wgC.Wait()
+	atomic.StoreInt32(&stop, 1)
+	wgH.Wait()
+	return
+}
+
+func simplifyOne(g0 geom.Geom, tol float64, conc bool) string {
 	g, buf := flatten(g0)
 	s, isS := g.(geom.Simplifier)
 	if !isS {
@@ -914,7 +1163,19 @@ func simplifyOne(g0 geom.Geom, tol float64) string {
 	saved := append([]geom.Point(nil), buf...)
 	o := s.Simplify(tol)
 	first := vproto.GeomToks(o)
+	ref := first // the answer of the call made alone; `first` may become a deviating concurrent answer
 	res := ""
+	ccMutated := false
+	if conc {
+		dev, pm, mut := concurrentCallers(g0, tol, first)
+		if pm != "" {
+			return "panic " + strings.ReplaceAll(pm, " ", "_")
+		}
+		ccMutated = mut
+		if dev != "" {
+			first = dev
+		}
+	}
 	// members simplified on their own (independence of members of multi-geometries)
 	switch t := g0.(type) {
 	case geom.MultiLineString:
@@ -931,7 +1192,7 @@ func simplifyOne(g0 geom.Geom, tol float64) string {
 		res += " members " + vproto.GeomToks(m)
 	}
 	same := "same"
-	if !sameBits(buf, saved) {
+	if !sameBits(buf, saved) || ccMutated {
 		same = "mutated"
 	}
 	if nVertices(g) <= 80 {
@@ -949,7 +1210,7 @@ func simplifyOne(g0 geom.Geom, tol float64) string {
 		}
 	}
 	stable := "stable"
-	if vproto.GeomToks(o) != first {
+	if vproto.GeomToks(o) != ref {
 		stable = "unstable"
 	}
 	return "ok " + first + " " + same + " " + stable + res
@@ -966,10 +1227,11 @@ func worker() {
 		if l != "" {
 			var g geom.Geom
 			var tol float64
+			var cls string
 			perr := vproto.Safe(func() {
 				p := vproto.NewParser(l)
 				p.Next() // simp
-				p.Next() // class
+				cls = p.Next() // class
 				tol = p.F()
 				g = p.Geom()
 			})
@@ -983,7 +1245,11 @@ func worker() {
 				if nVertices(g) < 64 {
 					limit = wallLimit / 8
 				}
-				res, ok := call(limit, func() string { return simplifyOne(g, tol) })
+				conc := strings.HasPrefix(cls, "conc")
+				if conc {
+					limit = 4 * wallLimit
+				}
+				res, ok := call(limit, func() string { return simplifyOne(g, tol, conc) })
 				fmt.Fprintf(out, "%s => %s\n", l, res)
 				out.Flush()
 				if !ok {
